@@ -136,3 +136,37 @@ M('c03-class-hook-own-namespace-only', 'C03', 'R7', 'falcon/hooks.py',
                 if callable(responder) and _DECORABLE_METHOD_NAME.match(responder_name):
                     responder = cast('Responder', responder)
                     do_before_all""")
+
+# ---- wave 4
+M('c03-wsgi-flag-computed-after-handled-exception', 'C03', 'R2', 'falcon/app.py',
+  """            except Exception as ex:
+                if not self._handle_exception(req, resp, ex, params):
+                    raise
+
+        # Call process_response middleware methods.
+""", """            except Exception as ex:
+                if not self._handle_exception(req, resp, ex, params):
+                    raise
+
+                req_succeeded = isinstance(ex, HTTPStatus)
+
+        # Call process_response middleware methods.
+""", also=('C20', 'C06'))
+M('c03-lifespan-rollback-runs-shutdown-handlers', 'C03', 'R5', 'falcon/asgi/app.py',
+  """                                    'type': EventType.LIFESPAN_STARTUP_FAILED,
+                                    'message': traceback.format_exc(),
+                                }
+                            )
+                            return
+""", """                                    'type': EventType.LIFESPAN_STARTUP_FAILED,
+                                    'message': traceback.format_exc(),
+                                }
+                            )
+                            for other in reversed(self._unprepared_middleware):
+                                if hasattr(other, 'process_shutdown'):
+                                    await other.process_shutdown(scope, event)
+                            return
+""")
+M2('c03-decorable-pattern-from-http-methods-only', 'C03', 'R8', [
+    {'file': 'falcon/hooks.py', 'old': "from falcon.constants import COMBINED_METHODS", 'new': "from falcon.constants import HTTP_METHODS"},
+    {'file': 'falcon/hooks.py', 'old': "'|'.join(method.lower() for method in COMBINED_METHODS)", 'new': "'|'.join(method.lower() for method in HTTP_METHODS)"}])
